@@ -370,6 +370,45 @@ func c05NumStrings(c *fw.Ctx, lo, hi int) *fw.Violation {
 	return &fw.Violation{What: "a numeric string used as a number is not the nearest double of its digits", Detail: detail{Program: s.Program, Note: note, Got: drive.Outcome{Kind: o.Kind, Msg: o.Msg}}}
 }
 
+// c05Order: every operand position is filled with a tracing call; the trace shows the order (left to right) and which
+// operands were evaluated at all.
+func c05OrderPrograms() []*progCase {
+	tr := func(tag string, v Expr) Expr { return CallE(V("tr"), S(tag), v) }
+	trF := &Func{Name: "tr", Params: []string{"tag", "v"}, Body: Blk(Pr(S("eval"), V("tag")), &Return{X: V("v")})}
+	id3 := &Func{Name: "id3", Params: []string{"a", "b", "c"}, Body: Blk(Pr(S("in id3"), V("a"), V("b"), V("c")), &Return{X: V("b")})}
+	var out []*progCase
+	add := func(stmts ...Stmt) {
+		body := append([]Stmt{Ex(Asg("=", V("arr"), Arr_(N("10"), N("20"), N("30")))), Ex(Asg("=", V("obj"), &ObjLit{Keys: []string{"k"}, Vals: []Expr{N("1")}}))}, stmts...)
+		out = append(out, &progCase{P: &Program{Funcs: []*Func{trF, id3}, Rules: []*Rule{{Kind: "BEGIN", Body: Blk(body...)}}}})
+	}
+	vals := [][2]Expr{{N("6"), N("3")}, {N("0"), N("5")}, {S("a"), N("1")}, {N("1"), N("0")}, {&NullLit{}, S("")}}
+	for _, op := range c05BinOps {
+		for _, v := range vals {
+			add(Ex(Asg("=", V("r"), Bin(op, tr("L", v[0]), tr("R", v[1])))), c05Show(V("r")))
+			add(Ex(Asg("=", V("r"), Bin(op, Bin(op, tr("A", v[0]), tr("B", v[1])), tr("C", v[0])))), c05Show(V("r")))
+		}
+	}
+	add(Ex(Asg("=", V("r"), CallE(V("id3"), tr("1", N("1")), tr("2", N("2")), tr("3", N("3"))))), Pr(V("r")))
+	add(Ex(Asg("=", V("r"), Arr_(tr("1", N("1")), tr("2", N("2")), tr("3", N("3"))))), Pr(V("r")))
+	add(Ex(Asg("=", V("r"), &ObjLit{Keys: []string{"b", "a"}, Vals: []Expr{tr("b", N("1")), tr("a", N("2"))}})), Pr(V("r")))
+	add(Ex(Asg("=", V("r"), Idx(tr("base", V("arr")), tr("index", N("1"))))), Pr(V("r")))
+	add(Ex(Asg("=", Idx(tr("base", V("arr")), tr("index", N("1"))), tr("value", N("9")))), Pr(V("arr")))
+	add(Ex(Asg("=", Mem(tr("base", V("obj")), "z"), tr("value", N("9")))), Pr(V("obj")))
+	add(Ex(Asg("+=", Idx(V("arr"), N("0")), tr("value", N("5")))), Pr(V("arr")))
+	add(Pr(tr("1", N("1")), tr("2", N("2")), tr("3", N("3"))))
+	add(Ex(CallE(V("printf"), tr("fmt", S("%s %f|")), tr("s", S("x")), tr("f", N("2")))), Pr(S("")))
+	add(Ex(CallE(Mem(tr("recv", V("arr")), "push"), tr("arg", N("4")))), Pr(V("arr")))
+	add(Ex(Asg("=", V("r"), CallE(Mem(tr("recv", V("arr")), "contains"), tr("arg", N("20"))))), Pr(V("r")))
+	add(Ex(Asg("=", V("r"), &MatchExpr{Subj: tr("subject", N("2")), Cases: []MatchCase{{Pats: []Expr{N("1")}, Body: tr("body1", N("10"))}, {Pats: []Expr{N("2")}, Body: tr("body2", N("20"))}, {Pats: []Expr{V("_")}, Body: tr("body3", N("30"))}}})), Pr(V("r")))
+	add(&If{Cond: tr("cond", N("0")), Then: Pr(tr("then", N("1"))), Else: Pr(tr("else", N("2")))})
+	add(&For{Init: Asg("=", V("i"), tr("init", N("0"))), Cond: Bin("<", V("i"), tr("cond", N("2"))), Post: Asg("=", V("i"), Bin("+", V("i"), tr("post", N("1")))), Body: Pr(S("body"), V("i"))})
+	add(&ForIn{V: "v", Iter: tr("iter", V("arr")), Body: Pr(tr("body", V("v")))})
+	add(Ex(Asg("=", V("r"), Un("-", tr("x", N("1"))))), Ex(Asg("=", V("r2"), Un("!", tr("y", N("0"))))), Pr(V("r"), V("r2")))
+	add(Ex(Asg("=", V("r"), Bin("+", Bin("*", tr("a", N("2")), tr("b", N("3"))), Bin("*", tr("c", N("4")), tr("d", N("5")))))), Pr(V("r")))
+	add(Ex(Asg("=", V("r"), Bin("&&", Bin("||", tr("a", N("0")), tr("b", N("1"))), Bin("||", tr("c", N("0")), tr("d", N("0")))))), Pr(V("r")))
+	return out
+}
+
 func c05Kind(o c05Operand) string {
 	n := o.Name
 	switch {
@@ -395,7 +434,7 @@ func init() {
 	fw.Register(&fw.Prop{
 		ID: "C05",
 		Rule: "every binary operator x every ordered pair of the operand alphabet x three supply modes (literal, variables, document fields); every unary operator, ++/-- in both positions, `is` x 10 type names, " +
-			"short-circuit probes with a tracing call, and every operator as ONE expression site evaluated over the whole sequence of operand pairs (forward and reversed, ending in a failing pair); a state is a table cell (form, operator, left kind, right kind, outcome); non-trivial = cells whose model result is a value; numeric results are compared as doubles",
+			"short-circuit probes with a tracing call, and every operator as ONE expression site evaluated over the whole sequence of operand pairs (forward and reversed, ending in a failing pair); tracing calls in every operand position of every operator and composite form (order and extent of evaluation); every string d.dd / dd.dd as a number; a state is a table cell (form, operator, left kind, right kind, outcome); non-trivial = cells whose model result is a value; numeric results are compared as doubles",
 		Plan: func(t fw.Tier) int { return len(c05Operands(t == fw.Thorough)) + 1 },
 		Bound: func(t fw.Tier) string {
 			return fmt.Sprintf("operand alphabet of %d values, all ordered pairs, all operators, 3 supply modes", len(c05Operands(t == fw.Thorough)))
@@ -404,6 +443,10 @@ func init() {
 		Run: func(c *fw.Ctx, u int) {
 			ops := c05Operands(c.Thorough())
 			if u == len(ops) {
+				for i, pc := range c05OrderPrograms() {
+					pc, i := pc, i
+					c.Do(func() any { return c05Spec{Form: "order", L: i, Text: pc.source()} }, func() *fw.Violation { v, _, _ := pc.check(c); return v })
+				}
 				for lo := 0; lo < 10000; lo += 1000 {
 					lo := lo
 					c.Do(func() any { return c05Spec{Form: "numstr", L: lo} }, func() *fw.Violation { return c05NumStrings(c, lo, lo+1000) })
@@ -460,6 +503,10 @@ func init() {
 			var s c05Spec
 			if !unmarshal(raw, &s) {
 				return nil
+			}
+			if s.Form == "order" {
+				v, _, _ := c05OrderPrograms()[s.L].check(c)
+				return v
 			}
 			if s.Form == "numstr" {
 				return c05NumStrings(c, s.L, s.L+1000)
